@@ -177,7 +177,7 @@ def cone(goal_fs, facts):
     return [f for i, f in enumerate(facts) if keep[i]]
 
 
-def prove(goal, facts, timeout_ms=10000, use_cone=True):
+def prove(goal, facts, timeout_ms=10000, use_cone=True, portfolio=True):
     """Validity of facts => goal.
     -> dict(status=proved|refuted|undecided, backend, seconds, model)"""
     t0 = time.time()
@@ -188,7 +188,7 @@ def prove(goal, facts, timeout_ms=10000, use_cone=True):
         return dict(status="proved", backend="trivial(facts false)", seconds=0.0, model=None)
     ng = z3.Not(goal) if goal is not False else True
     fs = cone([ng], facts) if use_cone else list(facts)
-    st, m, be = check_sat(fs + [ng], timeout_ms, portfolio=True)
+    st, m, be = check_sat(fs + [ng], timeout_ms, portfolio=portfolio)
     if st == "unsat":
         return dict(status="proved", backend=be, seconds=time.time() - t0, model=None)
     if st == "sat" and use_cone and len(fs) != len(facts):
